@@ -4,5 +4,5 @@ CONSTANTS
   NtSet = {4,6,8,10,12,16,20,24}
   Ops = {"residualGive", "smootherTake", "xsmootherTake", "residualTake", "smootherGive"}
   EmitTables = FALSE
-  FIXED = {"F19"}
+  FIXED = {"F19", "F21"}
 INVARIANTS EpochDisjoint AllRadialOnce AllCirclesOnce
